@@ -525,7 +525,7 @@ PROPS = {
         "check": "c15_check",
         "timeout_quick": 900,
         "crash_is_violation": True,
-        "theories": ["theories/Base.v", "theories/Dispatch.v", "theories/Total.v", "theories/TotalProofs.v", "gen/Facts.v"],
+        "theories": ["theories/Base.v", "theories/Dispatch.v", "theories/Total.v", "theories/TotalProofs.v", "gen/Facts.v", "theories/Wedge.v", "theories/WedgeProofs.v"],
         "check_theories": ["theories/Check15.v"],
         "level_text": "Coq theorems over a model of message handling with Go's nil dereference as an explicit Panic "
                       "outcome: for every message shape (request / reply / both / neither; id present or not; params "
